@@ -457,6 +457,29 @@ namespace rpc
             process_field((buffer&)x);
         }
 
+        static bool inside(const slice& s, size_t size)
+        {
+            return s.offset >= 0 && s.length <= size &&
+                   (size_t)s.offset <= size - s.length;
+        }
+
+        template<typename K, typename V>
+        void process_field(sorted_map<K, V>& x)
+        {
+            process_field(x.index);
+            process_field(x.base_buffer);
+            if (failed) return;
+            auto size = x.base_buffer.size();
+            for (auto& e : x.index) {
+                // a key is an rpc::string including its terminator
+                if (e.first.length == 0 || !inside(e.first, size) ||
+                    !inside(e.second, size)) {
+                    failed = true;
+                    return;
+                }
+            }
+        }
+
         void process_field(iovec_array& x)
         {
             iovector_view v;
